@@ -1,10 +1,15 @@
 """C04 - xDS request/ACK/NACK handling answers exactly when the protocol requires.
 
-Proof: lean/IstioModel/C04/Theorems.lean + ProtocolTheorems.lean (classification for every state and request, no-loop,
-record = last request, crash freedom; SotW and delta).
-Tie: T-diff - the real xds.ShouldRespond / Send / shouldRespondDelta / sendDelta on a real
-model.Proxy vs the Lean model, same op lines, line-by-line (streams sotw, delta).
-On break: harness `oracle` evaluates the property's clauses directly on the real functions.
+Proof (lean/IstioModel/C04): classification for every state and request (Theorems), the code that ANSWERS - processRequest /
+pushXds / processDeltaRequest / pushDeltaXds / forceEDSPush / push loops: what is sent, what the generators are asked for, the
+watch table (ProcessTheorems) -, the receive side (RecvTheorems), record = last request over every schedule of the SotW and of
+the delta closed loop (ProtocolTheorems, DeltaTraceTheorems, DeltaProtocolTheorems), no loop at trace level (NoLoopTheorems,
+DeltaNoLoopTheorems), crash freedom.
+Tie: T-diff - the real functions of /repo vs the Lean model, same op lines, line by line: streams sotw, delta, warm (ShouldRespond
+/ Send / shouldRespondDelta / sendDelta on a real model.Proxy), loop, dloop (closed loops), proc, dproc (the real request / push
+handlers on a recording stream with recording generators), recv (the real Receive / receiveDelta on a real DiscoveryServer),
+enum, denum (exhaustive single-step enumeration).
+On break: harness `oracle` evaluates the property's clauses on the real code, keyed on the history of the exchange.
 """
 import os
 
@@ -12,7 +17,7 @@ import os
 # the model files, which are built (imported), grepped and audited through their users but not counted as obligations
 THEOREMS = ["IstioModel.C04.Theorems", "IstioModel.C04.ProtocolTheorems", "IstioModel.C04.DeltaTraceTheorems",
             "IstioModel.C04.ProcessTheorems", "IstioModel.C04.RecvTheorems", "IstioModel.C04.DeltaProtocolTheorems",
-            "IstioModel.C04.NoLoopTheorems"]
+            "IstioModel.C04.NoLoopTheorems", "IstioModel.C04.DeltaNoLoopTheorems"]
 
 
 def oracle(ctx, stream, case_lines, rep):
@@ -69,11 +74,24 @@ def _distinct_tie_names(ctx):
 def run(ctx):
     _distinct_tie_names(ctx)
     ctx.rule = ("cases = random request/send sequences (1-40 ops) over 10 xDS types, names within {a,b,c}(+'*' for delta), "
-                "nonce in {empty,current,stale}, with/without error_detail, send ok/fail, biased to conformant ACKs; "
+                "nonce in {empty,current,stale,of a failed send}, with/without error_detail, send ok/fail, biased to conformant ACKs "
+                "(sotw, delta, warm); closed-loop schedules (loop, dloop); request/push sequences with scripted generator answers "
+                "(proc, dproc); scripted first requests (recv); every (state class x request class) over a tiny universe (enum, denum); "
                 "distinct = hash of (ops, implementation outputs); non-trivial = at least one op")
     ctx.assumptions = [
-        "a real Envoy/ztunnel behaves like the conformant client of theorems no_loop / delta_no_loop (ACK echoes nonce and names)",
-        "gRPC framing and stream goroutines are outside the model; Send is modelled by its watch update only",
+        "a real Envoy/ztunnel behaves like the conformant clients of Protocol.lean / DeltaProtocol.lean: it answers every response with "
+        "exactly one ACK or NACK echoing that response's nonce (SotW: carrying its current names; delta: attaching the subscription "
+        "changes it has not sent yet), and sends every delta subscription change exactly once",
+        "delta_no_loop and delta_ack_silent are about an ACK that carries NO subscribe / unsubscribe / initial_resource_versions "
+        "entries; an ACK that carries a change is covered by dtail_responses_bounded (answered at most once for the change, never "
+        "for its own sake) and dproc_resubscribe_silent (names already on record: silent)",
+        "tail_responses_bounded / dtail_responses_bounded bound the responses of a run in which the environment is quiet (no further "
+        "subscription change, push or warming mark); a bound for schedules WITH such events (each can cost a bounded number of "
+        "responses) is not proved",
+        "gRPC framing and the stream goroutines (select loop of Stream / StreamDeltas, channel hand-over) are outside the model; "
+        "Send / sendDelta are modelled by their watch update; generators are abstract (any answer) in the theorems and scripted in the tie",
+        "recv: the outcome of handling debug / unknown / empty type URLs is that of the production generators for an unauthenticated "
+        "plaintext client (table procClass, tied on every run); authenticated debug requests are not exercised",
     ]
     ctx.trusted.append("pilot/pkg/xds/zz_verif_c04.go (verif-tagged accessors for shouldRespondDelta, sendDelta)")
     ctx.trusted.append("pilot/pkg/xds/zz_verif_c03.go (processRequest, processDeltaRequest, pushConnection, pushConnectionDelta on a bare server), "
@@ -148,14 +166,30 @@ def replay(ctx, path):
 
 
 MANIFEST = {
-    "level_text": ("Lean 4 proof: the SotW and delta request classification (ShouldRespond, shouldRespondDelta, Send, sendDelta, "
-                   "NewWatchedResource) is modelled exactly and every clause of the statement is a theorem for all states and requests "
-                   "(first request/reconnect/added names answered; ACK, NACK, stale nonce silent; no_loop; record_matches_request; "
-                   "never_crashes), and quiescent_record_matches proves the last sentence for every schedule of a closed loop with a "
-                   "conformant client over FIFO channels (induction over step lists, arbitrary non-unique nonces). The model is tied to /repo on every run by a line-by-line differential against the real functions."),
-    "level_note": ("Trusted: Lean kernel + {propext, Classical.choice, Quot.sound}; the hand-written model (tied by differential testing: "
-                   "random request/send sequences on a real model.Proxy, ~3000 cases quick / 80000 thorough); the verif-tagged accessor "
-                   "file pilot/pkg/xds/zz_verif_c04.go; Envoy assumed to be the conformant client of no_loop. gRPC framing not modelled."),
-    "technique": "Lean 4 theorems over an exact model of the ACK/NACK state machine + differential correspondence with the real Go functions",
+    "level_text": ("Lean 4 proof over an exact model of the request handling of pkg/xds/server.go, pilot/pkg/xds/{ads,delta,xdsgen}.go and "
+                   "Proxy.NewWatchedResource. (1) Classification, all states and requests, SotW and delta: first request / reconnect / "
+                   "added names answered; ACK, NACK, stale or never-delivered nonce, unsubscribe silent; a delta subscription change on a "
+                   "NACK or stale ACK applied; never_crashes. (2) The code that answers (processRequest, pushXds, processDeltaRequest, "
+                   "pushDeltaXds, forceEDSPush, push loops) for every generator: silent classes send nothing and call no generator; an "
+                   "answered request makes one generator call on exactly the newly subscribed names (whole set on first request / "
+                   "warming), sends at most one response of its type (delta CDS: plus the forced EDS push), records the nonce iff the "
+                   "response went out; the outcome depends on the generator only through the recorded calls. (3) Receive / receiveDelta: "
+                   "no crash on any first request, a stream without a usable node is refused, after a valid first request everything is "
+                   "forwarded in order. (4) Trace level, every schedule: quiescent_record_matches (SotW closed loop), delta_trace_record "
+                   "and dloop_quiescent_record_matches (delta, changes attached to ACKs / NACKs, pushes overtaking ACKs), and no loop: "
+                   "tail_responses_bounded / dtail_responses_bounded (with the environment quiet the number of responses is bounded by the "
+                   "start state, not by the length of the run). The model is tied to /repo on every run by a line-by-line differential "
+                   "against the real functions and handlers (11 streams, incl. an exhaustive single-step enumeration)."),
+    "level_note": ("Trusted: Lean kernel + {propext, Classical.choice, Quot.sound}; the hand-written model, tied by differential testing "
+                   "(~22000 cases quick, ~300000 thorough: random sequences, closed loops, real request / push handlers with recording "
+                   "generators, real Receive on a real DiscoveryServer, exhaustive single-step enumeration over a 2-3 name universe); the "
+                   "verif-tagged accessor files pilot/pkg/xds/zz_verif_c04.go, zz_verif_c03.go, zz_verif_c04b.go, pkg/xds/zz_verif_c04b.go; "
+                   "the history-keyed Go oracle (a second, independent statement of the clauses). Assumed: Envoy / ztunnel is the "
+                   "conformant client of Protocol.lean / DeltaProtocol.lean. Not modelled: gRPC framing, the select loop and goroutines of "
+                   "Stream / StreamDeltas, proxyless-gRPC narrowing, agentgateway collections; generators are abstract; debug / unknown "
+                   "types only as the outcome table of the production generators for an unauthenticated client. Not proved: a response "
+                   "bound for schedules in which the environment keeps acting (only for quiet tails), name bookkeeping of delta wildcard "
+                   "types beyond 'a removed resource leaves the record' (property C03)."),
+    "technique": "Lean 4 theorems over an exact model of the ACK/NACK state machine and of the request / push handlers + differential correspondence with the real Go functions",
     "design_ref": "DESIGN.md section 5 C04",
 }
